@@ -655,3 +655,409 @@ func c21Extras4(c *Ctx) {
 			return strings.HasPrefix(Expr(f.X), "len(") && Param("n")(f.Y)
 		}})
 }
+
+func storeToLeaf(in ssa.Instruction, leaf string) bool {
+	st, ok := in.(*ssa.Store)
+	if !ok {
+		return false
+	}
+	fa, ok := st.Addr.(*ssa.FieldAddr)
+	return ok && fieldName(fa) == leaf
+}
+
+// c31Extras4: before Config.ticketKeys turns to the listener's own keys (c.mutex.RLock), a key list it returns is the
+// per-client Config's (GetConfigForClient), never the listener's.
+func c31Extras4(c *Ctx) {
+	w := c.W
+	fn := w.Fn("(*z/tls.Config).ticketKeys")
+	if fn == nil {
+		return
+	}
+	c.Sites++
+	c.Cut(CutSpec{Rule: "R-PROV", Fn: fn, Label: "a key list returned from the per-client branch is configForClient.sessionTicketKeys (or nil)", MinTargets: -1,
+		Target: func(in ssa.Instruction, res resolver) bool {
+			rt, ok := in.(*ssa.Return)
+			if !ok || len(rt.Results) != 1 {
+				return false
+			}
+			v := res(unspill(rt, 0))
+			return !isNilConst(v) && Expr(v) != "configForClient.sessionTicketKeys"
+		},
+		Barrier: func(in ssa.Instruction) bool {
+			cc := callCommon(in)
+			return cc != nil && syncLockKind(cc) == "RLock" && len(cc.Args) > 0 && strings.HasPrefix(Expr(cc.Args[0]), "c.")
+		}, Cut: func(Fact) bool { return false }})
+}
+
+// c22Extras4: makeField reports "string not valid UTF-8" only past utf8.ValidString being false (a correctly encoded
+// U+FFFD is a valid string).
+func c22Extras4(c *Ctx) {
+	w := c.W
+	fn := w.Fn("z/encoding/asn1.makeField")
+	if fn == nil {
+		return
+	}
+	n := 0
+	for _, in := range callsIn(fn, "errors.New") {
+		cc := callCommon(in)
+		k, ok := cc.Args[0].(*ssa.Const)
+		if !ok || k.Value == nil || !strings.Contains(k.Value.ExactString(), "not valid UTF-8") {
+			continue
+		}
+		n++
+		c.Sites++
+		c.Cut(CutSpec{Rule: "R-VSET", Fn: fn, Label: fmt.Sprintf("the UTF-8 error (#%d) is raised only past utf8.ValidString == false", n), MinTargets: -1,
+			Target: func(i2 ssa.Instruction, _ resolver) bool { return i2 == in },
+			Cut: func(f Fact) bool {
+				cl := callOf(f.X)
+				return f.Op == "false" && cl != nil && calleeName(&cl.Call) == "unicode/utf8.ValidString"
+			}})
+	}
+	c.Check(n >= 1, "R-VSET", "encoding/asn1.makeField", "the invalid-UTF-8 error site found", w.Pos(fn.Pos()), fmt.Sprint(n))
+}
+
+// c23Extras4: decryptOAEP accepts only ciphertexts of a key with room for seed and lHash of the label hash:
+// k >= 2*hash.Size()+2 (the MGF hash does not enter).
+func c23Extras4(c *Ctx) {
+	w := c.W
+	fn := w.Fn("z/rsa.decryptOAEP")
+	if fn == nil {
+		return
+	}
+	c.Sites++
+	c.Cut(CutSpec{Rule: "R-VSET", Fn: fn, Label: "succeeds only past k >= 2*hash.Size()+2 (sizes taken from the label hash)", Target: SuccessReturn(1, nil), MinTargets: -1,
+		Cut: func(f Fact) bool {
+			if f.Op != "ge" || f.Y == nil {
+				return false
+			}
+			e := Expr(f.Y)
+			return strings.Contains(e, "Size(hash)*2") && strings.HasSuffix(e, "+2)") && !strings.Contains(e, "mgf")
+		}})
+}
+
+// ekmWriters: the exporter secret of a TLS 1.3 client is taken from the transcript up to the server Finished
+// (readServerFinished), that of a server in sendServerFinished: the set of functions that store Conn.ekm is fixed.
+func ekmWriters(c *Ctx) {
+	w := c.W
+	var got []string
+	for _, wr := range w.FieldWrites()["Conn.ekm"] {
+		if wr.Kind == "store" && !strings.HasSuffix(w.RelFile(wr.Fn.Pos()), "_test.go") {
+			got = append(got, short(FuncName(wr.Fn)))
+		}
+	}
+	sort.Strings(got)
+	want := "(*tls.clientHandshakeState).handshake ; (*tls.clientHandshakeStateTLS13).readServerFinished ; (*tls.serverHandshakeState).handshake ; (*tls.serverHandshakeStateTLS13).sendServerFinished"
+	c.Sites++
+	c.Check(strings.Join(got, " ; ") == want, "R-ORDER", "tls.Conn.ekm", "the exporter secret is derived at the transcript points of RFC 8446 7.5 / RFC 5705 (fixed set of writers)", "-", strings.Join(got, " ; "))
+}
+
+// sortParamRule: no function of the package sorts a slice it received as a parameter (the caller's list, often a
+// shared default table, would be reordered for everybody).
+func sortParamRule(c *Ctx, pkg string) {
+	w := c.W
+	n := 0
+	for _, fn := range w.FuncsOfPkg(pkg) {
+		for _, b := range fn.Blocks {
+			for _, in := range b.Instrs {
+				cc := callCommon(in)
+				if cc == nil || !strings.HasPrefix(calleeName(cc), "sort.") || len(cc.Args) == 0 {
+					continue
+				}
+				n++
+				root := stripConv(cc.Args[0])
+				if mi, ok := root.(*ssa.MakeInterface); ok {
+					root = stripConv(mi.X)
+				}
+				// a parameter captured by the comparison closure lives in a cell that holds the same slice
+				if u, ok := root.(*ssa.UnOp); ok && u.Op == token.MUL {
+					if al, ok := u.X.(*ssa.Alloc); ok {
+						for _, q := range fn.Params {
+							if q.Name() == al.Comment {
+								onlyParam := true
+								for _, r := range *al.Referrers() {
+									if st, ok := r.(*ssa.Store); ok && st.Addr == ssa.Value(al) && st.Val != ssa.Value(q) {
+										onlyParam = false
+									}
+								}
+								if onlyParam {
+									root = q
+								}
+							}
+						}
+					}
+				}
+				if p, ok := root.(*ssa.Parameter); ok && fn.Parent() == nil {
+					c.Fail("R-PURE", short(FuncName(fn)), "does not sort its parameter "+paramName(p)+" in place", w.InstrPos(in), calleeName(cc))
+				}
+			}
+		}
+	}
+	c.Sites++
+	c.OK("R-PURE", pkg, "sort calls searched for parameters sorted in place", "-", fmt.Sprintf("%d sort calls", n))
+}
+
+// cloneCoverage: a Clone/clone method that copies its receiver field by field into a fresh value of the same type
+// assigns every field of the type (a field added later, or forgotten, silently resets to zero in every copy).
+func cloneCoverage(c *Ctx, fnNames ...string) {
+	w := c.W
+	for _, name := range fnNames {
+		fn := w.Fn(name)
+		if fn == nil {
+			c.Undecided("R-TABLE", short(name), "anchor", "-", "not found")
+			continue
+		}
+		for _, b := range fn.Blocks {
+			for _, in := range b.Instrs {
+				al, ok := in.(*ssa.Alloc)
+				if !ok || !al.Heap {
+					continue
+				}
+				st, ok := al.Type().Underlying().(*types.Pointer).Elem().Underlying().(*types.Struct)
+				if !ok || len(fn.Params) == 0 || typeStr(al.Type()) != typeStr(fn.Params[0].Type()) {
+					continue
+				}
+				set := map[int]bool{}
+				whole := false
+				for _, r := range *al.Referrers() {
+					if s0, ok := r.(*ssa.Store); ok && s0.Addr == ssa.Value(al) {
+						whole = true // clone := *p copies every field
+					}
+				}
+				if whole {
+					c.Sites++
+					c.OK("R-TABLE", short(name), "the copy assigns every field of "+typeStr(al.Type()), w.InstrPos(in), "whole-value copy")
+					continue
+				}
+				for _, r := range *al.Referrers() {
+					if fa, ok := r.(*ssa.FieldAddr); ok {
+						for _, r2 := range *fa.Referrers() {
+							if s2, ok := r2.(*ssa.Store); ok && s2.Addr == ssa.Value(fa) {
+								set[fa.Field] = true
+							}
+						}
+					}
+				}
+				var missing []string
+				for i := 0; i < st.NumFields(); i++ {
+					f := st.Field(i)
+					ts := typeStr(f.Type())
+					if set[i] || strings.HasPrefix(ts, "sync.") || f.Name() == "_" {
+						continue
+					}
+					missing = append(missing, f.Name())
+				}
+				c.Sites++
+				c.Check(len(missing) == 0, "R-TABLE", short(name), "the copy assigns every field of "+typeStr(al.Type()), w.InstrPos(in), "not copied: "+strings.Join(missing, ", "))
+			}
+		}
+	}
+}
+
+// c29Extras4: (a) copies of a Config / fingerprint carry every field; (b) the configured SessionID of a fingerprint
+// is replaced by random bytes only when a session is being resumed.
+func c29Extras4(c *Ctx) {
+	w := c.W
+	var clones []string
+	for _, fn := range w.FuncsOfPkg("z/tls") {
+		if fn.Parent() == nil && (fn.Name() == "Clone" || fn.Name() == "clone") && fn.Signature.Recv() != nil {
+			clones = append(clones, FuncName(fn))
+		}
+	}
+	sort.Strings(clones)
+	cloneCoverage(c, clones...)
+	c.Check(len(clones) >= 1, "R-TABLE", "z/tls", "Clone methods found", "-", strings.Join(clones, ","))
+	fn := w.Fn("(*z/tls.Conn).clientHandshake")
+	if fn == nil {
+		return
+	}
+	n := 0
+	for _, b := range fn.Blocks {
+		for _, in := range b.Instrs {
+			if !storeToLeaf(in, "ClientFingerprintConfiguration.SessionID") {
+				continue
+			}
+			n++
+			c.Sites++
+			the := in
+			c.Cut(CutSpec{Rule: "R-STATE", Fn: fn, Label: fmt.Sprintf("the fingerprint's SessionID is replaced (#%d) only when a cached session is being offered", n), MinTargets: -1,
+				Target: func(i2 ssa.Instruction, _ resolver) bool { return i2 == the },
+				Cut: func(f Fact) bool {
+					return f.Op == "nonnil" && strings.Contains(typeStr(f.X.Type()), "ClientSessionState")
+				}})
+		}
+	}
+	c.Check(n >= 1, "R-STATE", "tls.Conn.clientHandshake", "store of the fingerprint SessionID found", w.Pos(fn.Pos()), fmt.Sprint(n))
+}
+
+// c33Extras4: (a) a decoder that looks a name up in a table uses the name as it is in the document (a case
+// normalisation misses mixed-case keys such as "Ed25519"); (b) strings.TrimLeft/TrimRight/Trim are not given a
+// multi-character cutset that reads like a prefix ("0x" also strips the zeros of "0x0000").
+func c33Extras4(c *Ctx) {
+	w := c.W
+	if fn := w.Fn("(*z/x509.PublicKeyAlgorithm).UnmarshalJSON"); fn != nil {
+		n := 0
+		for _, b := range fn.Blocks {
+			for _, in := range b.Instrs {
+				lk, ok := in.(*ssa.Lookup)
+				if !ok || !strings.HasSuffix(Expr(lk.X), "publicKeyNameToAlgorithm") {
+					continue
+				}
+				n++
+				c.Sites++
+				bad := ""
+				for v := range backClosure(lk.Index, nil) {
+					if cl, ok := v.(*ssa.Call); ok && strings.HasPrefix(calleeName(&cl.Call), "strings.") {
+						bad = calleeName(&cl.Call)
+					}
+				}
+				if cl, ok := lk.Index.(*ssa.Call); ok && strings.HasPrefix(calleeName(&cl.Call), "strings.") {
+					bad = calleeName(&cl.Call)
+				}
+				c.Check(bad == "", "R-TABLE", "x509.PublicKeyAlgorithm.UnmarshalJSON", "the algorithm name is looked up as written (the table holds the exact names MarshalJSON emits)", w.InstrPos(in), bad)
+			}
+		}
+		c.Check(n == 1, "R-TABLE", "x509.PublicKeyAlgorithm.UnmarshalJSON", "table lookup found", w.Pos(fn.Pos()), fmt.Sprint(n))
+	}
+	nt := 0
+	for _, pk := range []string{"z/tls", "z/x509", "z/json", "z/x509/pkix"} {
+		for _, fn := range w.FuncsOfPkg(pk) {
+			for _, in := range callsIn(fn, "strings.TrimLeft", "strings.TrimRight", "strings.Trim") {
+				nt++
+				cc := callCommon(in)
+				k, ok := cc.Args[1].(*ssa.Const)
+				if !ok || k.Value == nil {
+					continue
+				}
+				cut := strings.Trim(k.Value.ExactString(), "\"")
+				distinct := map[rune]bool{}
+				for _, r := range cut {
+					distinct[r] = true
+				}
+				if len(distinct) >= 2 && (strings.HasPrefix(cut, "0x") || strings.HasPrefix(cut, "0X")) {
+					c.Fail("R-DEAD", short(FuncName(fn)), "a prefix is removed with TrimPrefix, not with a Trim cutset", w.InstrPos(in), fmt.Sprintf("%s(_, %q) removes every leading '0' and 'x'", calleeName(cc), cut))
+				}
+			}
+		}
+	}
+	c.Sites++
+	c.OK("R-DEAD", "JSON packages", "Trim cutsets searched for prefixes", "-", fmt.Sprintf("%d Trim calls", nt))
+}
+
+// c25Extras4: (a) handleKeyUpdate returns nil only after the read keys were rotated; (b) the retry counter is reset
+// for every non-empty record that is neither an alert nor a ChangeCipherSpec.
+func c25Extras4(c *Ctx) {
+	w := c.W
+	if fn := w.Fn("(*z/tls.Conn).handleKeyUpdate"); fn != nil {
+		c.Sites++
+		c.Cut(CutSpec{Rule: "R-ORDER", Fn: fn, Label: "returns nil only after c.in.setTrafficSecret (the peer has already switched its sending keys)", Target: SuccessReturn(0, nil), MinTargets: -1,
+			Barrier: func(in ssa.Instruction) bool {
+				cc := callCommon(in)
+				return cc != nil && strings.HasSuffix(calleeName(cc), "halfConn).setTrafficSecret") && len(cc.Args) > 0 && strings.HasSuffix(Expr(cc.Args[0]), ".in")
+			}, Cut: func(f Fact) bool {
+				// no cipher suite: the function fails with an alert
+				return f.Op == "nil" && strings.Contains(Expr(f.X), "cipherSuiteTLS13ByID")
+			}})
+	}
+	if fn := w.Fn("(*z/tls.Conn).readRecordOrCCS"); fn != nil {
+		n := 0
+		for _, b := range fn.Blocks {
+			for _, in := range b.Instrs {
+				if !storeToLeaf(in, "Conn.retryCount") {
+					continue
+				}
+				if k, ok := intConst(in.(*ssa.Store).Val); !ok || k != 0 {
+					continue
+				}
+				n++
+				c.Sites++
+				var bad []string
+				neAlert, neCCS := false, false
+				for _, f := range domFacts(b) {
+					if f.Y == nil || !strings.HasSuffix(typeStr(f.X.Type()), "recordType") {
+						continue
+					}
+					k, ok := intConst(f.Y)
+					if !ok {
+						continue
+					}
+					switch {
+					case f.Op == "ne" && k == 21:
+						neAlert = true
+					case f.Op == "ne" && k == 20:
+						neCCS = true
+					case f.Op == "eq":
+						bad = append(bad, fmt.Sprintf("only for record type %d", k))
+					}
+				}
+				if !neAlert || !neCCS {
+					var fs []string
+					for _, f := range domFacts(b) {
+						if f.Y != nil {
+							fs = append(fs, f.Op+" "+Expr(f.X)+" "+Expr(f.Y))
+						}
+					}
+					bad = append(bad, "alert / ChangeCipherSpec not excluded: "+strings.Join(fs, " | "))
+				}
+				c.Check(len(bad) == 0, "R-STATE", "tls.Conn.readRecordOrCCS", "the retry counter is reset for every non-empty record other than alerts and ChangeCipherSpec (application data included)", w.InstrPos(in), strings.Join(bad, "; "))
+			}
+		}
+		c.Check(n == 1, "R-STATE", "tls.Conn.readRecordOrCCS", "reset of the retry counter found", w.Pos(fn.Pos()), fmt.Sprint(n))
+	}
+}
+
+// c28Extras4: once readSessionTicket has read the NewSessionTicket message it returns nil only after replacing
+// hs.session (the log's SessionTicket is built from it).
+func c28Extras4(c *Ctx) {
+	w := c.W
+	fn := w.Fn("(*z/tls.clientHandshakeState).readSessionTicket")
+	if fn == nil {
+		return
+	}
+	calls := callsIn(fn, "(*z/tls.Conn).readHandshake")
+	c.Sites++
+	c.Check(len(calls) == 1, "R-STATE", "tls.clientHandshakeState.readSessionTicket", "the read of the NewSessionTicket message found", w.Pos(fn.Pos()), fmt.Sprint(len(calls)))
+	if len(calls) != 1 {
+		return
+	}
+	c.Cut(CutSpec{Rule: "R-STATE", Fn: fn, Label: "after the NewSessionTicket was read, nil is returned only past the store of hs.session", StartAfter: calls[0], Target: SuccessReturn(0, nil), MinTargets: -1,
+		Barrier: func(in ssa.Instruction) bool { return storeToLeaf(in, "clientHandshakeState.session") }, Cut: func(Fact) bool { return false }})
+}
+
+// c30Extras4: (a) the hand-rolled opaque-body decoders reject only a message shorter than its header or with a wrong
+// length field (an empty body is a message); (b) newSessionTicketMsg.unmarshal accepts only after it has read the
+// lifetime hint that marshal writes.
+func c30Extras4(c *Ctx) {
+	w := c.W
+	for _, name := range []string{"(*z/tls.serverKeyExchangeMsg).unmarshal", "(*z/tls.clientKeyExchangeMsg).unmarshal"} {
+		fn := w.Fn(name)
+		if fn == nil {
+			c.Undecided("R-VSET", short(name), "anchor", "-", "not found")
+			continue
+		}
+		c.Sites++
+		c.Cut(CutSpec{Rule: "R-VSET", Fn: fn, Label: "rejects only if the input is shorter than the 4-octet header or the length field disagrees", MinTargets: -1,
+			Target: func(in ssa.Instruction, res resolver) bool {
+				rt, ok := in.(*ssa.Return)
+				if !ok || len(rt.Results) != 1 {
+					return false
+				}
+				b, isK := boolConst(res(rt.Results[0]))
+				return isK && !b
+			},
+			Cut: func(f Fact) bool {
+				if f.Y == nil {
+					return false
+				}
+				if f.Op == "lt" && strings.HasPrefix(Expr(f.X), "len(") {
+					k, ok := intConst(f.Y)
+					return ok && k == 4
+				}
+				return f.Op == "ne" && (strings.Contains(Expr(f.Y), "len(") || strings.Contains(Expr(f.X), "len("))
+			}})
+	}
+	if fn := w.Fn("(*z/tls.newSessionTicketMsg).unmarshal"); fn != nil {
+		c.Sites++
+		c.Cut(CutSpec{Rule: "R-PRE", Fn: fn, Label: "accepts only after storing the lifetime hint", Target: TrueReturn(0, nil), MinTargets: -1,
+			Barrier: func(in ssa.Instruction) bool { return storeToLeaf(in, "newSessionTicketMsg.lifetimeHint") }, Cut: func(Fact) bool { return false }})
+	}
+}
